@@ -18,7 +18,7 @@ meta = {"breaks": p, "needs": needs, "caught_by": caught, "initially_missed": mi
         "confirmed": {"existing_suite": "cargo test --workspace --no-fail-fast --offline in the agent's worktree with the patch applied: 229 passed, 0 failed (run by me, tools/confirm_seed.sh); worktree diff verified identical to patch.diff",
                       "demo": "agent's demo fails with the patch and passes without (agent-verified with git apply -R / git apply)",
                       "checks_run": f"tools/try_seed.sh {root}/{p} <props>"},
-        "base_commit": "cde4267", "apply": f"git -C /repo apply /verif/seeded/{p}-r{rnd}/patch.diff ; run checks ; git -C /repo checkout -- ."}
+        "base_commit": subprocess.run(["git", "-C", f"{root}/{p}", "rev-parse", "--short", "HEAD"], capture_output=True, text=True).stdout.strip(), "apply": f"git -C /repo apply /verif/seeded/{p}-r{rnd}/patch.diff ; run checks ; git -C /repo checkout -- ."}
 json.dump(meta, open(os.path.join(dst, "meta.json"), "w"), indent=1)
 subprocess.run(["git", "-C", "/repo", "worktree", "remove", "--force", f"{root}/{p}"])
 shutil.rmtree(src, ignore_errors=True)
